@@ -63,6 +63,10 @@ FEATURES = {
     "deprecated_only": "message M { option deprecated = true; int32 x = 1 [deprecated = true]; }",
     # a field named like a builtin scalar type, declared FIRST, then fields of that scalar in every label: the order
     # for which the plugin's builtins.<type> qualification is meant to work under every option combination
+    # oneof group names that are not plain snake_case (the group name is part of the public API: which_one_of(m, name))
+    "oneof_names": "message M { oneof fooBar { int32 a = 1; string b = 2; } oneof foo_bar { int32 c = 3; string d = 4; } oneof class { int32 e = 5; bool f = 6; } oneof _lead { int32 g = 7; bytes h = 8; } oneof Variant { M i = 9; } }",
+    # type names made of capitals only / ending in a capital, nested in each other (flattened class names)
+    "nested_caps": "message A { message B { int32 x = 1; message C { int32 z = 1; } C c = 2; } enum E { E_ZERO = 0; E_ONE = 1; } B b = 1; E e = 2; repeated B bs = 3; map<string, B> bm = 4; } message TypeA { message X1 { int32 y = 1; } X1 x = 1; A.B ab = 2; A.B.C abc = 3; } message HTTPServer { message TLSConfig { bool on = 1; } TLSConfig tls = 1; }",
     # members whose names start with a digit once the enum-name prefix is stripped (the plugin emits _1, _2_0)
     "enum_digit_members": "enum Version { VERSION_UNSPECIFIED = 0; VERSION_1 = 1; VERSION_2_0 = 2; V3 = 3; version_4 = 4; } message M { Version v = 1; repeated Version r = 2; }",
     "builtin_int": "message M { int64 int = 1; repeated int32 a = 2; optional int64 b = 3; map<string, sint32> c = 4; oneof g { uint32 d = 5; string e = 6; } }",
